@@ -94,6 +94,15 @@ def app_specs(draw):
                                                        min_size=1, max_size=2))))
             if port_types:
                 m["_port_type"] = draw(st.sampled_from(port_types))
+            if style == "wrapped" and len(m["args"]) < 4 and draw(st.integers(0, 3)) == 0:
+                # an enumerated string type that the interface does reach (facets drawn inside
+                # unreferenced classes never get into the WSDL)
+                m["args"].append(["pick", {
+                    "k": "prim", "t": "Unicode",
+                    "f": {"values": draw(st.lists(st.sampled_from(
+                        ["a", "b", "xyz", "A b", "north", "south", "east", "west", "é"]),
+                        min_size=2, max_size=5, unique=True))},
+                    "occ": {"min": 0, "max": 1, "nillable": True}}])
             methods.append(m)
         services.append({"name": "Svc%d" % si, "methods": methods, "port_types": port_types})
     return {"U": U, "prot": prot, "services": services, "faults": faults,
